@@ -216,13 +216,13 @@ theorem extractLoop_spec {kf : KF} (hkf : KFOK kf) (b? : Option Base) (hbase : B
               (by intro g' hi; simp only [Gauge.ingestOp, Option.some.injEq] at hi; subst hi; exact ⟨a, ha2, by omega⟩)
               hT1 (Nat.le_refl _) hmu0
         | upd pos pn =>
-          obtain ⟨b, eb, hpos⟩ := hop
+          obtain ⟨b, eb, hpos, hns⟩ := hop
           subst eb
           have hp : pos < b.node.items.length := by have := hpcle b rfl; omega
           have hkeyp := Node.key_of_lt b.node pos hp
           have hk : ekeys (denOp (some b) (.upd pos pn)) = [b.node.items[pos].key] := by
             simp [denOp, baseItems, List.getElem?_eq_getElem hp]
-          have hopU : OpOK kf (some b) (.upd pos pn) := ⟨b, rfl, hpos⟩
+          have hopU : OpOK kf (some b) (.upd pos pn) := ⟨b, rfl, hpos, hns⟩
           have hiU : ∀ g0 : Gauge, g0.ingestOp kf (some b) (.upd pos pn) =
               some (g0.ingestKey kf b.node.items[pos].key (kf.sl b.node.items[pos].key)) := by
             intro g0; simp [Gauge.ingestOp, hkeyp]
@@ -247,7 +247,7 @@ theorem extractLoop_spec {kf : KF} (hkf : KFOK kf) (b? : Option Base) (hbase : B
               (by intro g' hi; rw [hiU] at hi; cases hi; exact ⟨a, ha2, by omega⟩)
               hT1 (Nat.le_refl _) hmu0
         | keep s e sum =>
-          obtain ⟨b, eb, hse, hepc, hsum⟩ := hop
+          obtain ⟨b, eb, hse, hepc, hsum, hns⟩ := hop
           subst eb
           subst hsum
           have hel : e ≤ b.node.items.length := by have := hpcle b rfl; omega
@@ -305,7 +305,7 @@ theorem extractLoop_spec {kf : KF} (hkf : KFOK kf) (b? : Option Base) (hbase : B
                   omega
               · simp only [q5]
                 apply step g done (.ins k pn :: .keep (s + 1) e (slSum kf (chunkKeys b (s + 1) e)) :: rest) target htr
-                  (wf_cons.2 ⟨trivial, wf_cons.2 ⟨⟨b, rfl, q4, hepc, rfl⟩, hwfr⟩⟩) _ ⟨bd, hbd, hbdle⟩ hT1
+                  (wf_cons.2 ⟨trivial, wf_cons.2 ⟨⟨b, rfl, q4, hepc, rfl, fun _ h => absurd h (by omega)⟩, hwfr⟩⟩) _ ⟨bd, hbd, hbdle⟩ hT1
                   (Nat.le_refl _) _ ⟨[], by simp⟩
                 · simp only [den_cons, denOp, baseItems]
                   rw [← q3]; simp
@@ -320,14 +320,14 @@ theorem extractLoop_spec {kf : KF} (hkf : KFOK kf) (b? : Option Base) (hbase : B
               · subst f5
                 have hm : s + ln = e := by rw [f4]; exact Nat.add_sub_cancel' (Nat.le_of_lt hse)
                 rw [hm] at hbd1
-                exact take g (.keep s e (slSum kf (chunkKeys b s e))) rest target htr ⟨b, rfl, hse, hepc, rfl⟩ hwfr rfl
+                exact take g (.keep s e (slSum kf (chunkKeys b s e))) rest target htr ⟨b, rfl, hse, hepc, rfl, hns⟩ hwfr rfl
                   (hpart e hse (Nat.le_refl _) hbd1) hT1 (Nat.le_refl _) hmu0
               · subst f5
                 simp only
                 apply take g (.keep s (s + ln) (slSum kf (chunkKeys b s (s + ln))))
                   (.keep (s + ln) e (slSum kf (chunkKeys b (s + ln) e)) :: rest) target htr
-                  ⟨b, rfl, by clear hbd1; omega, by clear hbd1; omega, rfl⟩
-                  (wf_cons.2 ⟨⟨b, rfl, by clear hbd1; omega, hepc, rfl⟩, hwfr⟩) _
+                  ⟨b, rfl, by clear hbd1; omega, by clear hbd1; omega, rfl, hns⟩
+                  (wf_cons.2 ⟨⟨b, rfl, by clear hbd1; omega, hepc, rfl, fun _ h => absurd h (by clear hbd1; omega)⟩, hwfr⟩) _
                   (hpart (s + ln) (by clear hbd1; omega) (by clear hbd1; omega) hbd1) hT1 (Nat.le_refl _)
                 · clear hbd1
                   simp only [mu, opsCount_cons, Op.count]
@@ -335,7 +335,7 @@ theorem extractLoop_spec {kf : KF} (hkf : KFOK kf) (b? : Option Base) (hbase : B
                 · simp only [den_cons, denOp, baseItems, ← List.append_assoc, ← ents_append]
                   rw [slice_append _ _ _ _ (by clear hbd1; omega) (by clear hbd1; omega)]
           · simp only [hbig, if_false]
-            exact take g (.keep s e (slSum kf (chunkKeys b s e))) rest target htr ⟨b, rfl, hse, hepc, rfl⟩ hwfr rfl
+            exact take g (.keep s e (slSum kf (chunkKeys b s e))) rest target htr ⟨b, rfl, hse, hepc, rfl, hns⟩ hwfr rfl
               (by
                 intro g' hi
                 simp only [Gauge.ingestOp] at hi
